@@ -475,20 +475,20 @@ def run(ctx):
                     seen.add(key)
                     nsites += 1
                     ctx.fn_analysed.add(fn.name)
-                    check_site(ctx, fn, s)
+                    ctx.attempt(check_site, ctx, fn, s)
         if nsites < 14:
             from ..frontend import AnalysisBroken
             raise AnalysisBroken('only %d context-switch asm sites found in flavour %s (14 confirmed by hand)' % (nsites, fl))
         native = ctx.ssa('myth_if_native.c', fl)
-        rule_make_context(ctx, native)
+        ctx.attempt(rule_make_context, ctx, native)
         stops = PUBLISH_CALLS + ('myth_queue_pop', 'myth_mutex_unlock_body') + lib.SPIN_STOPS
         for tu in sorted(set(SWAP_FUNCS.values())):
             names = [n for n, t in SWAP_FUNCS.items() if t == tu]
             v = ctx.view(tu, roots=names, stops=stops, flavour=fl)
             for fname in names:
                 ctx.need_fn(v, fname)
-                rule_publish(ctx, v, fname, stops)
-        rule_handover(ctx, fl)
+                ctx.attempt(rule_publish, ctx, v, fname, stops)
+        ctx.attempt(rule_handover, ctx, fl)
         from . import c12
         with ctx.shared({'C12.4': 'C03.9'}, keep=lambda k: k.startswith(('create:', 'alloc:', 'free:', 'alloc and free')), floor=15,
                         doc='initial stack layout (shared with C12.4): the per-thread hint copied below the stack header and the initial '
@@ -497,10 +497,10 @@ def run(ctx):
             v4 = ctx.view('myth_if_native.c', roots=['myth_create_ex_body'],
                           stops=('myth_queue_push', 'myth_queue_pop', 'get_new_myth_thread_struct_desc', 'get_new_myth_thread_struct_stack',
                                  'myth_init_ex_body', 'myth_make_context_empty', 'myth_make_context_voidcall') + lib.SPIN_STOPS, flavour=fl)
-            c12.rule4_custom_data(ctx, v4)
+            ctx.attempt(c12.rule4_custom_data, ctx, v4)
             v2 = ctx.view('myth_if_native.c', roots=['get_new_myth_thread_struct_stack', c12.STACK_FREE, 'myth_flmalloc', 'myth_flfree'],
                           stops=('myth_freelist_pop', 'myth_freelist_push', 'myth_mmap'), flavour=fl)
-            c12.rule4_affine(ctx, v2)
+            ctx.attempt(c12.rule4_affine, ctx, v2)
     ctx.floor('C03.1', 14 * 3)
     ctx.floor('C03.2', 11 * 5)
     ctx.floor('C03.3', 11)
